@@ -233,6 +233,10 @@ func TestVerif(t *testing.T) {
 		res.Error = msg
 		return
 	}
+	if msg := raceBarrierSelfTest(t); msg != "" {
+		res.Error = msg
+		return
+	}
 
 	if job.Replay != "" {
 		replayFile(t, &job, res)
